@@ -63,7 +63,7 @@ func runC02(r *Run) {
 		kinds: allStackKinds, strategies: []string{"simple", "precise", "lookup", "predicate"},
 		maxClients: scale(6, 8), arrivals: []time.Duration{0, ms, 2 * ms, 3 * ms}, holds: []time.Duration{0, ms, 2 * ms, time.Second},
 		qTimeouts: []time.Duration{ms, 2 * ms, 3 * ms, time.Second}, bTimeouts: []time.Duration{0, ms, time.Hour},
-		deadlines: []time.Duration{2 * ms, 5 * ms, time.Hour}, cancelPct: 30, cancelTimes: []time.Duration{0, ms, 2 * ms, 3 * ms},
+		deadlines: []time.Duration{2 * ms, 5 * ms, time.Hour}, cancelPct: 30, cancelOnReleasePct: 35, cancelTimes: []time.Duration{0, ms, 2 * ms, 3 * ms},
 		backlogs: []int{1, 2, 4}, limits: []int{1, 2, 3}, relTimes: []time.Duration{0, ms, 2 * ms, 3 * ms},
 	})
 	if sc == nil {
@@ -128,7 +128,7 @@ func runC12(r *Run) {
 		kinds: []string{"queue", "queue", "queue", "lifo-ctor", "fifo-ctor", "pool", "fixedpool"}, strategies: []string{"simple", "precise"},
 		maxClients: scale(7, 9), arrivals: []time.Duration{0, 0, ms, 2 * ms}, holds: []time.Duration{0, ms, 2 * ms},
 		qTimeouts: []time.Duration{ms, 2 * ms, 3 * ms, time.Second}, bTimeouts: []time.Duration{time.Second},
-		cancelPct: 25, cancelTimes: []time.Duration{ms, 2 * ms, 3 * ms},
+		cancelPct: 25, cancelOnReleasePct: 35, cancelTimes: []time.Duration{ms, 2 * ms, 3 * ms},
 		backlogs: []int{1, 2, 3, 4, 1, 2, 3, -1, 0}, limits: []int{1, 2}, relTimes: []time.Duration{0, ms, 2 * ms, 3 * ms},
 		queueOnly: true,
 	})
@@ -433,6 +433,31 @@ func runC19(r *Run) {
 	s := sc.s
 	sc.start()
 	cfg := sc.cfg
+	// after the burst: one more caller uses the pool repeatedly, long enough for the pool's limiter to close a
+	// sampling window (10 samples, 1 s) - it must be served every time
+	serialRounds, serialDone := 0, 0
+	if t.Chance(40, "late-serial-caller") {
+		serialRounds = 12
+		s.Go("serial-caller", func(tk *Task) {
+			tk.Sleep(3 * time.Second)
+			for k := 0; k < serialRounds; k++ {
+				tk.Begin("acquire", "serial")
+				l, ok := sc.st.Lim.Acquire(sc.st.PartCtx(tk.Ctx, ""))
+				tk.End(ok)
+				if !ok || l == nil {
+					s.Fail("caller-refused", cfg.Key(), "the only caller left (round %d of %d, t=%s) was refused by an idle pool [%s]", k, serialRounds, fmtDur(s.Now()), cfg)
+					return
+				}
+				sc.st.Out.Add(1)
+				tk.Sleep(100 * ms)
+				tk.Begin("complete", "success")
+				sc.st.Out.Add(-1)
+				l.OnSuccess()
+				tk.End(nil)
+				serialDone++
+			}
+		})
+	}
 	s.OnQuiescent = func() {
 		if out := sc.st.Out.Load(); out > int64(cfg.Limit) {
 			s.Fail("over-admission", cfg.Key(), "%d tokens are held at once but the pool limit is %d [%s]", out, cfg.Limit, cfg)
@@ -454,6 +479,13 @@ func runC19(r *Run) {
 				s.Fail("caller-refused", cfg.Key(), "caller %d (arrived %s) was refused at %s although every holder releases well within the backlog timeout and the backlog bound was respected [%s]", i, fmtDur(cl.acq.CallT), fmtDur(cl.acq.RetT), cfg)
 				return
 			}
+		}
+		if serialDone != serialRounds {
+			s.Fail("caller-never-served", cfg.Key(), "the serial caller completed %d of %d rounds and is stuck although nobody else uses the pool [%s]", serialDone, serialRounds, cfg)
+			return
+		}
+		if serialRounds > 0 {
+			r.Probe("serial_caller_through_a_window")
 		}
 	}
 	s.Run()
